@@ -261,6 +261,31 @@ def run(ck):
                     bi = next(i for (lb, d, i) in files if d is vbase)
                     lines.append(f"st readlas 1 1 {info_tok(bi)} {int(closefd)} {'read' if what.startswith('source') else 'source'}")
                     meta.append((sc, None, int(s.closed), None))
+    # compressed output (conforming backend double): the same ownership rules, also once the writer objects are gone
+    try:
+        import gc
+        import lazrs  # noqa: F401
+        for closefd in (True, False):
+            for api in ("LasData.write", "open_w", "open_w_then_drop"):
+                s = st.LogStream()
+                las = fio.make_las(ck.rng, 4, 6, 4, evlrs=[("v", 1, "", b"x")])
+                sc = {"kind": "scenario", "mode": "w", "compressed": True, "closefd": closefd, "api": api}
+                ck.case(("w-compressed", closefd, api), nontrivial=True)
+                ck.count("compressed_write_scenarios")
+                want_closed = closefd if api != "LasData.write" else False
+                if api == "LasData.write":
+                    las.write(s, do_compress=True, laz_backend=laspy.LazBackend.Lazrs)
+                else:
+                    w = laspy.open(s, mode="w", header=las.header, do_compress=True, laz_backend=laspy.LazBackend.Lazrs, closefd=closefd)
+                    with w:
+                        w.write_points(las.points)
+                    if api == "open_w_then_drop":
+                        del w
+                gc.collect()
+                if s.closed != want_closed:
+                    ck.fail(f"compressed output through {api}, closefd={closefd}: after the session (and garbage collection) stream.closed == {s.closed}", sc)
+    except ImportError:
+        ck.count("compressed_write_skipped_no_backend_double")
     # LasData.write never closes
     for minor, fmt in ((2, 3), (4, 6)):
         s = st.LogStream()
